@@ -183,6 +183,27 @@ func checkC20(c *Ctx, w *World) {
 		c.check(okPush, "C20.cover", construct, p.pos(uccs.Pos()), "every element is given the new list and asked to connect on every iteration path", why)
 	}
 	c.floor("C20.cover", len(containers), 2)
+	// the two containers cover every connection at every moment an update can run: the take-over moves the replacement
+	// from refreshingScRefs to scRefs inside one critical section of gb.mu — released in between, an update finds the
+	// replacement in neither container and it takes over with the previous list
+	if pl.uscs != nil {
+		sc := param(pl.uscs, 1)
+		var unreg, reg ssa.Instruction
+		for _, a := range pl.ai.ByFn[pl.uscs] {
+			switch {
+			case a.Field == "gcpBalancer.refreshingScRefs" && a.What == "map-delete":
+				if call, ok := a.Instr.(*ssa.Call); ok && call.Call.Args[1] == ssa.Value(sc) {
+					unreg = call
+				}
+			case a.Field == "gcpBalancer.scRefs" && a.What == "map-insert":
+				if mu, ok := a.Instr.(*ssa.MapUpdate); ok && mu.Key == ssa.Value(sc) {
+					reg = mu
+				}
+			}
+		}
+		okSec := unreg != nil && reg != nil && (pl.lf.HeldThroughout(unreg, reg, "gcpBalancer.mu") || pl.lf.HeldThroughout(reg, unreg, "gcpBalancer.mu"))
+		c.check(okSec, "C20.cover", "take-over: the replacement changes container inside one critical section", p.pos(pl.uscs.Pos()), "gb.mu is write-held from delete(refreshingScRefs, sc) to scRefs[sc] = slot (in either order)", "the replacement leaves refreshingScRefs and enters scRefs in different critical sections of gb.mu (or one of the two steps was not found): an address update in the gap reaches neither the old connection nor the replacement")
+	}
 
 	// ---- C20.error
 	t := pl.sums.Trans[re]
